@@ -33,6 +33,25 @@ CHECKS["C16"] = dict(
         "the call = image-surface record. Per-run calibration with corrupted events.",
    technique="TLA+ per-ray intensity machine evaluated by TLC on recorded traces (trace validation, exact dyadic arithmetic) + calibration",
    ref="6 (C16)")
+CHECKS["C17"] = dict(
+   text="spec/Polarization.tla states the Fresnel laws (cross-multiplied, cosines as certificates validated by Snell) and the algebra of the Jones "
+        "elements; MC_Polarization checks exhaustively on an exact rational grid (4361 cases: Pythagorean incidence/refraction angles, index grids) that "
+        "the laws imply R+T=1, Brewster and the normal-incidence value and that perturbed witnesses are rejected, and exports 943 cases with exact "
+        "expectations that are replayed into JonesFresnel / retarder / diattenuator code. Trace_Polarization validates recorded executions in exact "
+        "dyadic arithmetic: JonesFresnel matrices for random index pairs and angles, all ten Jones element classes (idempotence, unitarity, retardance, "
+        "rotation covariance), polarized lens traces (intensity preserved without coatings, field transverse, unpolarized = mean of orthogonal states), "
+        "single coated surfaces at oblique incidence. Calibration with corrupted records every run.",
+   technique="TLA+ law module + TLC exhaustive MC on an exact rational grid; spec->code case replay; code->spec trace validation (dyadic arithmetic)",
+   ref="6 (C17)")
+CHECKS["C18"] = dict(
+   text="spec/Catalogue.tla states the nine refractiveindex.info dispersion formulas, table interpolation (segment law), Abbe number and model-glass "
+        "identities as polynomial identities, and the exact-name lookup post-condition; MC_Catalogue model-checks the lookup post-condition on a toy "
+        "catalogue with duplicate names, substrings and regex metacharacters (and negative configs showing that regex / tie-breaking variants violate it) "
+        "and the law predicates on hand-computed instances. Trace_Catalogue validates recorded executions: thorough = all 2593 catalogue rows x wavelengths "
+        "across each row's range (scalar and array) and every exact-name query derivable from the CSV; quick = 300 stratified rows + ~400 queries. "
+        "Coefficients are read by the recorder from the YAML files directly, not through MaterialFile. Calibration with corrupted records every run.",
+   technique="TLA+ law module + TLC MC of the lookup post-condition; exhaustive code->spec trace validation over the catalogue (dyadic arithmetic)",
+   ref="6 (C18)")
 NOT_YET = "check not built yet in this session (see DESIGN.md section 6 for the plan)"
 def main():
     props = [json.loads(l)["id"] for l in open(os.path.join(HERE, "properties.jsonl"))]
